@@ -33,6 +33,24 @@ def make_case(idx, seed, logics, vectors, hist_ratio=0.35, big=False):
     return {"idx": idx, "logic": logic, "options": opts, "kind": kind, "script": script}
 
 
+def make_big_case(idx, seed, logics=("QF_UF", "QF_UFLIA", "QF_UFLRA", "QF_LRA", "QF_IDL", "QF_LIA")):
+    """larger single queries (10-20 assertions over more symbols): many conflicts at deeper decision levels with theory
+    propagation, where conflict analysis and minimisation do real work"""
+    rng = random.Random(f"engine-big-{seed}-{idx}")
+    logic = logics[idx % len(logics)]
+    p = gen.Problem(logic, rng, nbool=3, nnum=4)
+    asserts = [p.fla(rng.randint(2, 3)) for _ in range(rng.randint(10, 20))]
+    opts = [] if idx % 5 else [":random-seed %d" % rng.randint(1, 1000)]
+    script = "\n".join([f"(set-option {o})" for o in opts] + [p.set_logic()] + p.decls + [f"(assert {gen.smt(a)})" for a in asserts] + ["(check-sat)"]) + "\n"
+    return {"idx": f"big{idx}", "logic": logic, "options": opts, "kind": "big-single", "script": script}
+
+
+def run_cases(cases, certify=True, timeout=20, flavour="hooks"):
+    binary = common.opensmt_bin(flavour)
+    with mp.Pool(min(common.JOBS, 14)) as pool:
+        return pool.map(run_case, [(c, binary, certify, timeout) for c in cases], chunksize=4)
+
+
 def run_case(args):
     case, binary, certify, timeout = args
     tp = common.WORK / f"trace-{os.getpid()}.trace"
